@@ -78,6 +78,34 @@ def tests():
     for nc in ["'\\0'", "1 - 1"]:                # these need the expression to be evaluated: recorded finding
         for cons in ["p = %s;", "fp1(%s);"]:
             null_stmts.append(cons.replace("%s", nc))
+    # a second pass over the constraints of 6.5 with less usual operand types (fifth session)
+    extra_stmts = [
+        "p < q;", "p >= q;", "cp == p;", "vp != p;", "p == vp;", "cp < p;", "pc == ccp;", "cvp == vp;", "kp == p;", "pp == kpp;",
+        "!p;", "!d;", "!st.next;", "!fp;", "!a;", "!e;", "!b;", "!\"s\";",
+        "~u;", "~c;", "~b;", "~e;", "-d;", "+c;", "-b;", "+e;", "-ull;",
+        "p++;", "--p;", "d++;", "b++;", "e++;", "--e;", "f--;", "pc++;", "ps--;", "++st.m;", "a[1]++;", "(*p)++;", "++*p;", "pp++;", "(*pp)++;",
+        "&a;", "&a[1];", "&*p;", "&st.m;", "&m2[1];", "*m2;", "**m2;", "&m2;", "&st.arr;", "&st.arr[1];", "&un.o;", "&*a;", "&ps->m;", "&(st.m);", "&f1;", "*f1;", "&fp;", "*&i;", "&p;", "**&p;",
+        "(void)p;", "(void)st;", "(long)p;", "(int *)u;", "(double)c;", "(char)d;", "(_Bool)p;", "(struct S *)vp;", "(void (*)(void))fp;", "(enum E)i;", "(int)e;", "(unsigned)d;", "(int *)pc;", "(char *)p;", "(void *)fp1;", "(T3)d;", "(TP)vp;",
+        "(const int *)p;", "(int)(long)p;", "(float)ull;", "(_Bool)d;", "(_Bool)0;",
+        "i ? p : vp;", "i ? vp : p;", "i ? cp : p;", "i ? st : st2;", "i ? (void)0 : (void)0;", "i ? fvoid() : (void)0;", "i ? 1 : d;", "i ? e : i;", "i ? p : 0;", "i ? 0 : p;", "i ? a : p;", "i ? f1 : fp;", "p ? 1 : 2;", "d ? i : c;",
+        "i ? ps : 0;", "i ? vp : 0;", "i ? pc : \"s\";", "i ? un : un;", "i ? K1 : K2;", "i ? b : c;", "i ? cp : vp;", "i ? cvp : p;", "(i ? p : q)[0];", "*(i ? p : a);", "(i ? st : st2).m;", "(i ? ps : pts)->m;",
+        "p - q;", "p + u;", "c + p;", "p[c];", "u[p];", "a[e];", "p + e;", "b + p;", "p - b;", "pc - ca;", "a - p;", "p[b];", "a[ull];", "m2[1] - m2[0];", "&a[3] - &a[0];", "(p + 1)[-1];", "p[-1];", "*(p - 1);",
+        "sizeof(int[3]);", "sizeof a;", "sizeof *ps;", "sizeof(st);", "sizeof st.arr;", "_Alignof(double);", "sizeof(struct S);", "sizeof(i + d);", "sizeof p;", "sizeof *p;", "sizeof(int (*)(int));", "sizeof m2[0];", "sizeof(T3);", "sizeof \"abc\";", "sizeof 'a';", "sizeof(e);",
+        "st.next->next->m;", "(*ps).arr[1];", "ps->arr;", "(&st)->m;", "un.o;", "(*&st).m;", "ps->next->arr[0];", "st.arr[i];", "(st).m;", "pu->o;", "(*pu).m;", "ma.in.iu.w;", "pma->in.g[1][0];", "ma.cell[1][2];", "ma.as[1].m;",
+        "f1(c);", "f1(e);", "f1(b);", "f1(d);", "fp(1);", "(*fp)(1);", "(****fp)(1);", "(&f1)(2);", "f1;", "fvoid;", "fp = f1;", "fd(i);", "fd(f);", "fd(c);", "g2(d, i);", "fp1(a);", "fp1(&a[1]);", "fp1(st.arr);", "fvp(&st);", "fvp(fp1);", "fcc(\"s\");", "fcc(ca);", "fcc(pc);", "fs(st);", "fs(*ps);", "fs(fst());",
+        "i = (i, d);", "i = sizeof(i);", "i += d;", "p += i;", "p -= u;", "d *= i;", "i %= u;", "i <<= c;", "u |= i;", "b = d;", "b &= 1;", "e = K1;", "i = e;", "p += b;", "p += e;", "pc -= 1;", "d /= f;", "c += c;", "b += 1;", "e += 1;", "e |= K2;", "f *= 2;", "ull >>= 3;", "i ^= b;",
+        "a[1] = 2;", "*a = 1;", "*(a + 1) = 3;", "m2[1][2] = 0;", "(*m2)[1] = 1;", "**m2 = 1;", "*m2[1] = 2;", "st.arr[1] = 1;", "ps->arr[0] = 2;", "*st.arr = 3;", "un.m = 1;", "pu->o = 1.5;", "*pd = 1;", "pd[1] = i;", "*pp = p;", "**pp = 1;", "pp[0][1] = 2;",
+        "pc = \"s\";", "c = \"s\"[0];", "c = *\"s\";", "ccp = \"a\" \"b\";", "i = \"abc\"[1] + 1;",
+        "i = 'a';", "i = L'a';", "d = 1.0f;", "d = 1e3;", "u = 1u;", "i = 0x1;", "ull = 1ull;", "l = 1L;", "f = 1.5f;", "ld = 1.0L;", "c = '\\n';", "i = '\\x41';", "d = .5;", "d = 5.;", "i = 017;",
+        "if (p) ;", "while (d) ;", "do ; while (p);", "for (; p; ) ;", "switch (c) { case 'a': ; }", "if (st.next) ;", "while (!p) ;", "if (fp) ;", "if (a) ;", "for (i = 0; i < 4; i++) a[i] = i;", "for (p = a; p < a + 4; p++) *p = 0;", "switch (e) { case K1: ; default: ; }", "switch (b) { case 0: ; }", "if (e) ;", "if (b) ;",
+        "i = p && d;", "i = p || i;", "i = !p && !d;", "i = p && q;", "i = d || f;", "i = st.next && i;", "i = fp && i;", "i = a && 1;", "b = p && q;",
+        "i = p == 0;", "i = 0 == p;", "i = p != (void *)0;", "i = (void *)0 == p;", "i = ps == 0;", "i = fp == 0;", "i = fp != f1;", "i = f1 == fp;", "i = vp == 0;", "i = p == (int *)0;", "i = p == a;", "i = a == p;", "i = &a[0] == a;",
+        "vp = &vp;", "vp = p;", "p = vp;", "cvp = cp;", "cvp = p;", "vp = ps;", "ps = vp;", "vp = &st;", "vp = a;", "vp = pp;", "pp = vp;", "cp = a;", "ccp = ca;", "cp = &ci;", "kpp = pp;", "cvp = \"s\";",
+        "st = st2;", "st = *ps;", "*ps = st;", "st = fst();", "un = *pu;", "ts = st;", "st = ts;", "*pts = *ps;", "ma = mb;", "ma = *pma;", "uma = umb;", "ma.as[0] = st;", "st = ma.as[1];",
+        "e = e2;", "e = 1;", "i = K1 + K2;", "e = (enum E)1;", "e = K1 | K2;", "e == e2;", "e < K2;", "K1 ? 1 : 2;",
+        "i = (int)d + (int)f;", "d = (double)i / 2;", "u = (unsigned)-1;", "c = (char)300;", "i = -(int)u;", "i = (i);", "i = ((i) + (1));", "(i) = 1;", "(*p) = 1;", "(a)[1] = 2;", "(st).m = 1;", "(ps)->m = 2;", "(st.arr)[0] = 1;",
+        "i = i;", "i = +i;", "i = - -i;", "i = !!i;", "i = ~~i;", "i = -!i;", "i = *&*&i;", "i = sizeof sizeof i;", "i = i++ + ++i;", "i = (i = 1);", "i = i = 2;", "d = i = c;", "p = q = a;", "i += i += 1;",
+    ]
     call_stmts = [
         "f0();", "f1(1);", "f1(i);", "f1(c);", "f1(d);", "f1('a');", "f1(K1);", "f1(f0());", "f1(f1(1));", "g2(1, 2.0);", "g2(i, i);", "g2(c, f);", "fv(1);", "fv(1, 2);", "fv(1, 2.0, \"s\", p);", "fv(i, c, s, f);", "fvoid();", "fd(1);", "fd(f);", "fd(fd(d));",
         "fp1(p);", "fp1(a);", "fp1(&i);", "fp1(0);", "fp1(vp);", "fp1(tp);", "fp1(&st.m);", "fp1(st.arr);", "fvp(p);", "fvp(pc);", "fvp(vp);", "fvp(0);", "fvp(&st);", "fvp(ps);", "fvp(a);", "fvp(\"s\");", "fcc(pc);", "fcc(ccp);", "fcc(\"lit\");", "fcc(ca);", "fcc(0);",
@@ -95,7 +123,7 @@ def tests():
             "{ const int k = 1; i = k; }", "{ int k; k = i; (void)k; }", "{ _Static_assert(1, \"m\"); }", "{ int k[3]; k[0] = 1; }", "{ int n = 3; int vla[n]; vla[0] = 1; }", "{ char k = 'x'; int m = k; m; }", "{ unsigned k = 1; k << 2; }", "{ long long k = 1; k + 1; }",
             "{ float k = 1; k * 2; }", "{ double k = 1, m = 2; k / m; }", "{ int k = 1, *m = &k; *m; }", "{ int k = sizeof(int[3]); k; }", "i = ((i));", "i = (int)(char)(long)d;", "d = (double)(int)d;", "(void)0;", "(void)(i + 1);", "i = __func__[0];", "i = (int)sizeof(st);",
             "ti = ti + 1;", "ti++;", "ti = i;", "i = ti;", "ti << 1;", "ti % 2;", "tc = 'a';", "tc + 1;", "td = 1.5;", "td * 2;", "td = ti;", "{ T1 k = 1; T2 m = k; T3 n = m; n; }", "ti ? tc : td;", "a[ti];", "p + ti;", "f1(ti);", "{ T3 *ptx = &ti; *ptx; }", "p = &ti;", "{ T3 at[2]; at[0] = 1; }"]
-    for sgroup, name in ((ptr_stmts, "ptr"), (struct_stmts, "struct"), (call_stmts, "call"), (null_stmts, "null"), (misc, "misc")):
+    for sgroup, name in ((ptr_stmts, "ptr"), (struct_stmts, "struct"), (call_stmts, "call"), (null_stmts, "null"), (extra_stmts, "extra"), (misc, "misc")):
         for s in sgroup:
             out.append(("%s:%s" % (name, s), s))
     # ---- composition: every producer of a value class inside every consumer that needs that class (a wrong RESULT TYPE of an accepted
